@@ -199,7 +199,14 @@ func TestC17(t *testing.T) {
 				return sm.feed(rt, rapid.IntRange(1, 3).Draw(rt, "N"), rapid.IntRange(1, 3).Draw(rt, "seq"))
 			}
 		} else {
-			gg := genGraph(rt, ggOpts{maxNodes: 6, aliasRoutes: rapid.Bool().Draw(rt, "aliasRoutes"), weightOps: true, allOutputs: rapid.Bool().Draw(rt, "allOutputs")})
+			maxNodes := 6
+			if rapid.IntRange(0, 9).Draw(rt, "bigGraph") == 0 {
+				maxNodes = 45 // the sample models have at most 20 nodes
+			}
+			gg := genGraph(rt, ggOpts{maxNodes: maxNodes, aliasRoutes: rapid.Bool().Draw(rt, "aliasRoutes"), weightOps: true, allOutputs: rapid.Bool().Draw(rt, "allOutputs")})
+			if len(gg.nodes) >= 32 {
+				opClasses = append(opClasses, "graph>=32-nodes")
+			}
 			w.Desc = gg.String()
 			w.Model = base64.StdEncoding.EncodeToString(marshalModel(gg.model(rt)))
 			weighted = gg.weighted
